@@ -149,6 +149,9 @@ func (p *peerTracker) track() {
 func (p *peerTracker) getPeers(maxPeers int) []libpeer.ID {
 	p.peerLk.RLock()
 	defer p.peerLk.RUnlock()
+	if ids := simTrackedOrder(p.trackedPeers, maxPeers); ids != nil {
+		return ids
+	}
 
 	peers := make([]libpeer.ID, 0, maxPeers)
 	for peer := range p.trackedPeers {
@@ -217,6 +220,7 @@ func (p *peerTracker) peers() []*peerStat {
 	for _, stat := range p.trackedPeers {
 		peers = append(peers, stat)
 	}
+	simSortPeerStats(peers)
 	return peers
 }
 
